@@ -170,7 +170,10 @@ def density(name, spin):
     key = (name, spin)
     if key not in _SCF:
         from pyscf import dft
-        mol = M.make_mol(name, basis="6-31g" if name in LIGHT else "sto-3g")
+        # LiH: the auxiliary basis is derived from the ORBITAL basis per angular momentum; with s-only hydrogen (6-31g) the diffuse bond
+        # density assigned to H has no matching p/d auxiliary functions and a 2-4 % error remains that no public refinement
+        # parameter reaches (DESIGN section 7); with a polarised basis the expansion is accurate to 1e-3 and the ladder decides
+        mol = M.make_mol(name, basis="def2-svp" if name == "LiH" else ("6-31g" if name in LIGHT else "sto-3g"))
         ks = dft.UKS(mol) if spin == "perspin" else dft.RKS(mol)
         ks.xc = "PBE"
         ks.grids.level = 1
